@@ -16,6 +16,7 @@ pub mod c09;
 pub mod c10;
 pub mod c11;
 pub mod hist;
+pub mod fuzz;
 pub mod c12;
 pub mod c13;
 pub mod c14;
